@@ -27,11 +27,14 @@ package standard
 //@ ghost var lnDone bool
 //@ ghost var idleSeen bool
 //@ ghost var ctxErr bool
+// saSeen: the active gauge was read at least once - Shutdown never returns (with or without an error) before it has
+// looked whether connections are still being served, unless the context ended
+//@ ghost var saSeen bool
 //@ func transport.Shutdown(t, ctx) err
 //@   props C18
 //@   abstract
 //@   noinline
-//@   modifies lnDone, idleSeen, ctxErr
+//@   modifies lnDone, idleSeen, ctxErr, saSeen
 //@   ghostset-at-entry lnDone = false
 //@   ghostset-at-entry idleSeen = false
 //@   ghostset-at-entry ctxErr = false
@@ -41,6 +44,9 @@ package standard
 //@   ghostset after Err: ctxErr = true
 //@   assert before updateActive: lnDone && arg1 == 0
 //@   top-ensures err == nil ==> idleSeen || ctxErr
+//@   ghostset-at-entry saSeen = false
+//@   ghostset after updateActive: saSeen = true
+//@   top-ensures saSeen || ctxErr
 //@   loop 0:
 //@     invariant lnDone && !ctxErr
 
